@@ -54,6 +54,11 @@ SETUP = [("schedule", 0, 0, "n"), ("schedule", 1, 0, "n"), ("start",)]
 def fixed_scenarios():
     S = []
     S.append(("basic", {"emit": {0: [1, 2, 3]}, "threads": [[("schedule", 0, 0, "n"), ("start",), ("stop",), ("join",)]]}))
+    # start() on a started observer raises RuntimeError and touches nothing: the emitters keep delivering
+    S.append(("double-start", {"emit": {0: [1, 2, 3]}, "threads": [[("schedule", 0, 0, "n"), ("start",), ("start",), ("stop",), ("join",)]]}))
+    S.append(("double-start-2", {"emit": {0: [1, 2], 1: [3, 4]},
+                                 "threads": [[("schedule", 0, 0, "n"), ("schedule", 1, 1, "n"), ("start",), ("start",)], [("stop",), ("join",)]]}))
+    S.append(("cb-start", {"emit": {0: [1, 2]}, "callbacks": {0: [[("start",)]]}, "threads": [SETUP + [("stop",), ("join",)]]}))
     S.append(("cb-unschedule", {"emit": {0: [1, 2]}, "callbacks": {0: [[("unschedule", 0)]]},
                                 "threads": [SETUP + [("stop",), ("join",)]]}))
     S.append(("cb-remove-other", {"emit": {0: [1, 2]}, "callbacks": {0: [[("remove", 1, 0)]]},
